@@ -7,7 +7,7 @@ or the read-back touched an unmapped region; every later line of the case answer
 Ops:
   bnew <csv>            badd <b> <v>        bremove <b> <v>     bclone <b>   bfreeze <b>
   bunion|bintersect|bdifference|bxor <a> <b>
-  boffset <b> <offKey> <startKey> <endKey>  bmap <b>  bremap <b>  bunmap <b>
+  boffset <b> <offKey> <startKey> <endKey>  bmap <b>  bremap <b>  bunmap <b>  boptimize <b>
   rnew <csv>            rset <x> <col>      runion|rintersect|rdifference|rxor <a> <b>   rmerge <x> <y>
   fopen <shard>   fset <r> <c>   fclear <r> <c>   frow <r>   fsetrow <r> <y>   fclearrow <r>
   fimport <0|1 clear> <vals>     (importRoaring; vals = items a | a-b | a-b/step, fragment positions)
@@ -83,6 +83,7 @@ def parseOp (ws : List String) : Option Op :=
   | ["bmap", b] => b.toNat?.map .bmap
   | ["bremap", b] => b.toNat?.map .bremap
   | ["bunmap", b] => b.toNat?.map .bunmap
+  | ["boptimize", b] => b.toNat?.map .boptimize
   | ["boffset", b, o, s, e] => do pure (.boffset (← b.toNat?) (← o.toNat?) (← s.toNat?) (← e.toNat?))
   | ["rnew", v] => (parseVals v).map .rnew
   | ["rset", x, c] => do pure (.rset (← x.toNat?) (← c.toNat?))
